@@ -123,6 +123,22 @@ _ARM = {"kind": None, "point": None}
 _CLS = {}
 
 
+def _peek(node, others):
+    """a hook may READ the tree before it refuses (slots, depth, root ...): nothing remembered from these reads may
+    survive the roll-back"""
+    try:
+        others = [o for o in (others or []) if hasattr(o, "children")]
+    except TypeError:
+        others = []
+    for x in [node] + others:
+        for f in (lambda: x.children, lambda: (x.left, x.right), lambda: x.parent, lambda: x.depth, lambda: x.root,
+                  lambda: x.max_depth, lambda: x.is_leaf, lambda: list(x.descendants)):
+            try:
+                f()
+            except Exception:  # noqa: BLE001
+                pass
+
+
 def faulty_class():
     """user subclass of BinaryNode whose four documented hooks raise on demand"""
     if "c" not in _CLS:
@@ -131,19 +147,19 @@ def faulty_class():
         class FaultyBinaryNode(BinaryNode):
             def _BinaryNode__pre_assign_parent(self, new_parent):
                 if _ARM["kind"] == "parent" and _ARM["point"] == "pre":
-                    raise core.hook_exc(_ARM.get("op"), "pre_assign_parent")
+                    _peek(self, [new_parent]); raise core.hook_exc(_ARM.get("op"), "pre_assign_parent")
 
             def _BinaryNode__post_assign_parent(self, new_parent):
                 if _ARM["kind"] == "parent" and _ARM["point"] == "post":
-                    raise core.hook_exc(_ARM.get("op"), "post_assign_parent")
+                    _peek(self, [new_parent]); raise core.hook_exc(_ARM.get("op"), "post_assign_parent")
 
             def _BinaryNode__pre_assign_children(self, new_children):
                 if _ARM["kind"] == "children" and _ARM["point"] == "pre":
-                    raise core.hook_exc(_ARM.get("op"), "pre_assign_children")
+                    _peek(self, new_children); raise core.hook_exc(_ARM.get("op"), "pre_assign_children")
 
             def _BinaryNode__post_assign_children(self, new_children):
                 if _ARM["kind"] == "children" and _ARM["point"] == "post":
-                    raise core.hook_exc(_ARM.get("op"), "post_assign_children")
+                    _peek(self, new_children); raise core.hook_exc(_ARM.get("op"), "post_assign_children")
 
         _CLS["c"] = FaultyBinaryNode
     return _CLS["c"]
